@@ -126,10 +126,12 @@ Inductive event :=
 | ELin (t : nat) (o : fop) (r : fret)      (* the access at which the call takes effect *)
 | ERet (t : nat) (o : fop) (r : fret).
 
-Record gstate := MkG { g_stamp : N; g_cur : fvec; g_thr : list thread; g_log : list event }.
+(* g_fail: how many compare_and_swap attempts failed so far (bookkeeping for the
+   correspondence check only; nothing reads it) *)
+Record gstate := MkG { g_stamp : N; g_cur : fvec; g_thr : list thread; g_log : list event; g_fail : N }.
 
 Definition g_init (init : fvec) (progs : list (list fop)) : gstate :=
-  MkG 0%N init ((fun p => MkThread p PIdle) <$> progs) [].
+  MkG 0%N init ((fun p => MkThread p PIdle) <$> progs) [] 0%N.
 
 Definition set_thr (s : gstate) (t : nat) (th : thread) : list thread := <[t := th]> (g_thr s).
 
@@ -146,21 +148,21 @@ Definition step (fixed : bool) (s : gstate) (t : nat) : gstate :=
                 (* rcu: cur = load(); the closure is entered and parks *)
                 MkG (g_stamp s) (g_cur s)
                     (set_thr s t (MkThread (o :: rest) (PClosure (g_stamp s) (g_cur s) None)))
-                    (g_log s ++ [ECall t o])
+                    (g_log s ++ [ECall t o]) (g_fail s)
               else match o with
               | FIter =>
                   (* guard(): load; the snapshot is pinned, iteration comes later *)
                   MkG (g_stamp s) (g_cur s)
                       (set_thr s t (MkThread (o :: rest) (PIter (g_cur s))))
-                      (g_log s ++ [ECall t o; ELin t o (RList (g_cur s))])
+                      (g_log s ++ [ECall t o; ELin t o (RList (g_cur s))]) (g_fail s)
               | FRepl n =>
                   (* store(new) *)
                   MkG (g_stamp s + 1)%N n (set_thr s t (MkThread rest PIdle))
-                      (g_log s ++ [ECall t o; ELin t o RUnit; ERet t o RUnit])
+                      (g_log s ++ [ECall t o; ELin t o RUnit; ERet t o RUnit]) (g_fail s)
               | _ =>
                   let r := snd (fv_apply o (g_cur s)) in
                   MkG (g_stamp s) (g_cur s) (set_thr s t (MkThread rest PIdle))
-                      (g_log s ++ [ECall t o; ELin t o r; ERet t o r])
+                      (g_log s ++ [ECall t o; ELin t o r; ERet t o r]) (g_fail s)
               end
           | PClosure st snap sticky =>
               let '(new, sticky') := closure fixed o sticky snap in
@@ -168,15 +170,15 @@ Definition step (fixed : bool) (s : gstate) (t : nat) : gstate :=
                 (* compare_and_swap succeeds *)
                 let r := writer_ret o sticky' in
                 MkG (g_stamp s + 1)%N new (set_thr s t (MkThread rest PIdle))
-                    (g_log s ++ [ELin t o r; ERet t o r])
+                    (g_log s ++ [ELin t o r; ERet t o r]) (g_fail s)
               else
                 (* it fails: cur = prev, the closure runs again and parks *)
                 MkG (g_stamp s) (g_cur s)
                     (set_thr s t (MkThread (o :: rest) (PClosure (g_stamp s) (g_cur s) sticky')))
-                    (g_log s)
+                    (g_log s) (g_fail s + 1)%N
           | PIter snap =>
               MkG (g_stamp s) (g_cur s) (set_thr s t (MkThread rest PIdle))
-                  (g_log s ++ [ERet t o (RList snap)])
+                  (g_log s ++ [ERet t o (RList snap)]) (g_fail s)
           end
       end
   end.
